@@ -96,7 +96,7 @@ def bounded_info():
             "width in each of the x,y,z columns; titles (10 kinds incl. unset and 3 with multi-byte UTF-8 characters), boxes (19: 3-vector, diagonal, GROMACS-valid triclinic incl. "
             "negative-only and mixed-sign tilt terms, and general 3x3 arrays -- upper-triangular only, one box per single off-diagonal "
             "position, dense with and without negative entries; lists/numpy/ints), "
-            "writeline/writelines and box set before/after the records rotate so that every one of the 760 combinations occurs in every task; "
+            "the four ways of handing the records over (writeline per record, one writelines, writelines in two chunks, writelines then writeline) and box set before/after the records rotate so that every (title, box, way) triple and every (way, timing) pair occurs in every task; "
             "the empty title is a separate family (48 files). Thorough adds lists of 5..8 records, three 300-record files per configuration "
             "(one per record form) and 10000 VERIF_SEED-seeded random record lists of 1..8 records per configuration (random printable names, "
             "numbers in [0,10^7], coordinates over the whole representable range and at rounding boundaries). Function-level contracts "
@@ -153,7 +153,7 @@ BOXES = [
     {"kind": "general-dense", "value": [[3.1, 0.21, 0.32], [0.43, 4.1, 0.54], [0.65, 0.76, 5.1]], "numpy": False},
     {"kind": "general-dense-negative-entries", "value": [[3.12345, -0.2, 0.3], [0.4, 4.1, -0.5], [-0.6, 0.7, 5.55555]], "numpy": True},
 ]
-APIS = ["writeline", "writelines"]
+APIS = ["writeline", "writelines", "writelines-in-two-chunks", "writelines-then-writeline"]
 BOX_WHEN = ["before", "after"]
 
 
@@ -246,12 +246,12 @@ def make_case(records, fmt, count, form, title_i, box_i, api, box_when):
             "api": api, "box_when": box_when}
 
 
-N_ROT = len(TITLES) * len(BOXES) * 4
+N_ROT = len(TITLES) * len(BOXES) * len(APIS) * len(BOX_WHEN)
 
 
 def rotate(j):
     nt, nb = len(TITLES), len(BOXES)
-    return j % nt, (j // nt) % nb, APIS[(j // (nt * nb)) % 2], BOX_WHEN[(j // (nt * nb * 2)) % 2]
+    return j % nt, (j // nt) % nb, APIS[(j // (nt * nb)) % len(APIS)], BOX_WHEN[(j // (nt * nb * len(APIS))) % 2]
 
 
 def text_encoding():
@@ -339,6 +339,17 @@ def write_session(path, case):
         if case["api"] == "writelines":
             stage = "writelines(records)"
             f.writelines(args)
+        elif case["api"] == "writelines-in-two-chunks":
+            k_ = max(1, len(args) // 2)
+            stage = f"writelines(first {k_} records)"
+            f.writelines(args[:k_])
+            stage = f"writelines(remaining {len(args) - k_} records)"
+            f.writelines(args[k_:])
+        elif case["api"] == "writelines-then-writeline":
+            stage = "writelines(all but the last record)"
+            f.writelines(args[:-1])
+            stage = "writeline(last record)"
+            f.writeline(args[-1])
         else:
             for i, a in enumerate(args):
                 stage = f"writeline(record {i})"
@@ -1294,7 +1305,10 @@ def scope_coverage():
     cov["general-3x3-dense-with-negative-entries"] = any(all(x != 0 for r in m for x in r) and any(x < 0 for r in m for x in r) for m in gen) \
         and any(all(x > 0 for r in m for x in r) for m in gen)
     combos = {rotate(j) for j in range(448 * 3)}
-    cov["title-box-api-timing-all-combinations-per-task"] = len(combos) == N_ROT
+    # every (title, box) pair with every way of handing the records over, and every (api, box timing) pair, occur in every task
+    cov["title-box-api-timing-all-combinations-per-task"] = (
+        {(c[0], c[1], c[2]) for c in combos} == {(t_, b_, a_) for t_ in range(len(TITLES)) for b_ in range(len(BOXES)) for a_ in APIS}
+        and {(c[2], c[3]) for c in combos} == {(a_, w_) for a_ in APIS for w_ in BOX_WHEN})
     cov["multi-byte-titles-writable-and-present"] = sum(1 for k, t in TITLES if t and title_writable(t) and len(t.encode(text_encoding())) > len(t)) >= 2
     tilts = [[b["value"][1][0], b["value"][2][0], b["value"][2][1]] for b in BOXES if b["kind"].startswith("triclinic")]
     cov["triclinic-boxes-with-no-positive-tilt"] = sum(1 for t in tilts if min(t) < 0 and max(t) <= 0) >= 2
